@@ -41,9 +41,23 @@ def showTk : Spec.Tk → String
   | .num n => s!"num {Spec.showNumVal (Spec.numValue n)}"
   | .eof => "eof"
 
-def showTok (src : List Char) (t : Spec.Tok) : String :=
-  let (l, c) := Spec.posOf src t.off
-  s!"({showTk t.tk} @ {l} {c} {Spec.par (t.comments.map hexOfText)})"
+/-- (line, column) of every offset of a sorted offset list, in one pass over the text
+(agrees with `Spec.posOf`, which is the definition the theorems use). -/
+def positions (src : List Char) (offs : List Nat) : List (Nat × Nat) :=
+  let rec go : List Char → Nat → Nat → Nat → List Nat → List (Nat × Nat) → List (Nat × Nat)
+    | _, _, _, _, [], acc => acc.reverse
+    | [], _, line, col, _ :: os, acc => go [] 0 line col os ((line, col) :: acc)
+    | c :: cs, i, line, col, o :: os, acc =>
+      if o ≤ i then go (c :: cs) i line col os ((line, col) :: acc)
+      else if c == '\n' then go cs (i + 1) (line + 1) 1 (o :: os) acc
+      else go cs (i + 1) line (col + 1) (o :: os) acc
+  go src 0 1 1 offs []
+
+def showTokAt (t : Spec.Tok) (lc : Nat × Nat) : String :=
+  s!"({showTk t.tk} @ {lc.1} {lc.2} {Spec.par (t.comments.map fun cm => "c" ++ hexOfText cm)})"
+
+def showToks (src : List Char) (ts : List Spec.Tok) : String :=
+  Spec.sp (List.zipWith showTokAt ts (positions src (ts.map (·.off))))
 
 def handle (line : String) : String :=
   match line.splitOn "\t" with
@@ -91,7 +105,7 @@ def handle (line : String) : String :=
     | none => "bad-op"
     | some src =>
       match Spec.lex src with
-      | .ok ts => "ok " ++ Spec.sp (ts.map (showTok src))
+      | .ok ts => "ok " ++ showToks src ts
       | .error (.mk m o) => s!"lexerr {o} {m}"
   | ["numval", h] =>
     match decodeText h with
